@@ -143,3 +143,36 @@ func H_remove_then_stale() {
 	verifJ(w, " after Remove + re-Add")
 	verifReach("remove-then-stale")
 }
+
+// C09: a watched file is deleted (or unlinked with a descriptor held open) and
+// re-created; the path is added again before the reader has handled the old
+// watch's terminal notifications. Those late notifications must not tear down
+// the new watch.
+func H_readd_then_stale() {
+	W := verifParam("W")
+	verifKReset()
+	w := verifNewInotify(0)
+	verifSetupTable(w, W)
+	verifK.nIno = W + 1
+	i := verifChoose("entry", W)
+	e := verifTable[i]
+	verifAssume(verifK.marks[i].state == kDying) // the old file is gone: the kernel has destroyed its mark
+	verifK.addResolve = W                          // the name now refers to a new file
+	verifAssert(w.Add(e.path) == nil, "re-Add of the re-created path succeeds")
+	nwd := uint32(verifK.nextWd)
+	verifAssert(nwd != e.wd, "model: new watch descriptor")
+	// late terminal notifications of the old watch
+	mask := [...]uint32{unix.IN_IGNORED, unix.IN_DELETE_SELF, unix.IN_ATTRIB, unix.IN_DELETE_SELF | unix.IN_ATTRIB}[verifChoose("late", 4)]
+	old, ok := verifDeliver(w, e.wd, mask, 0)
+	verifAssert(ok && old.Op == 0, "late notifications of the replaced watch report nothing")
+	_, ok2 := verifDeliver(w, e.wd, unix.IN_IGNORED, 0)
+	verifAssert(ok2, "reader keeps running")
+	verifK.marks[i].state = kNone
+	verifCheckList(w, verifLivePaths("", ""), " after the old watch's late notifications (the re-added path must stay listed)")
+	got, ok3 := verifDeliver(w, nwd, unix.IN_MODIFY, 0)
+	verifAssert(ok3 && got.Op == Write && got.Name == e.path, "the new watch keeps reporting")
+	verifAssert(w.Remove(e.path) == nil, "the re-added path can be removed")
+	verifTable[i].live = false
+	verifJ(w, " after re-add, late notifications and Remove")
+	verifReach("readd-then-stale")
+}
